@@ -116,6 +116,7 @@ def main(argv):
     assumptions = set()
     rewrites = []
     samples = []
+    seen_fns = set()
     for unit in cfg.get('units', []):
         status, res, meta = run_verus_unit(unit, tier, seed)
         uev = {'unit': unit, 'engine': 'verus', 'status': status, 'wall_s': round(res.get('wall_s', 0), 2),
@@ -128,8 +129,17 @@ def main(argv):
                     fn_under_contract.append(f['fn'] + ' [verus]')
             rewrites += [f'{r[0]} x{r[2]} in {r[1]}' for r in meta['rewrites'] if r[0] != 'R6']
         assumptions.update(res.get('assumptions', []))
-        total_fn_ok += res.get('functions_verified', 0)
-        total_fine += res.get('obligations_fine', 0)
+        # distinct functions only: an imported unit is re-verified inside the importing unit, count it once
+        new_ok = 0
+        for fn, t in res.get('fn_times', {}).items():
+            key = fn.split('::', 1)[-1]
+            if t.get('ok') and key not in seen_fns:
+                seen_fns.add(key)
+                new_ok += 1
+        uev['functions_verified_new'] = new_ok
+        total_fn_ok += new_ok
+        share = (new_ok / res['functions_verified']) if res.get('functions_verified') else 0
+        total_fine += int(res.get('obligations_fine', 0) * share)
         smt_ms += res.get('smt_ms', 0)
         if status == 'undecided':
             undecided.append({'unit': unit, 'reason': res.get('reason')})
